@@ -385,6 +385,12 @@ public:
     }
   }
 
+  uint64_t violations_total()
+  {
+    std::lock_guard<std::mutex> g(mu_);
+    return violations_;
+  }
+
   void count(const std::string &name, uint64_t n = 1)
   {
     std::lock_guard<std::mutex> g(mu_);
